@@ -18,6 +18,7 @@ import (
 	ledger "github.com/formancehq/ledger/internal"
 	ledgercontroller "github.com/formancehq/ledger/internal/controller/ledger"
 	"github.com/formancehq/ledger/internal/machine"
+	storagecommon "github.com/formancehq/ledger/internal/storage/common"
 	ledgerstore "github.com/formancehq/ledger/internal/storage/ledger"
 )
 
@@ -141,6 +142,7 @@ func Classify(err error) string {
 		importErr     ledgercontroller.ErrImport
 		missingFeat   ledgerstore.ErrMissingFeature
 		invalidQuery  ledgerstore.ErrInvalidQuery
+		invalidQuery2 storagecommon.ErrInvalidQuery
 		concurrentTx  ledgerstore.ErrConcurrentTransaction
 		invalidVars   *machine.ErrInvalidVars
 	)
@@ -171,7 +173,7 @@ func Classify(err error) string {
 		return "import_error"
 	case errors.As(err, &missingFeat):
 		return "missing_feature"
-	case errors.As(err, &invalidQuery):
+	case errors.As(err, &invalidQuery), errors.As(err, &invalidQuery2):
 		return "invalid_query"
 	case errors.As(err, &concurrentTx):
 		return "concurrent_transaction"
